@@ -1,5 +1,6 @@
 import GambitV.Model.Schedule
 import Driver.Proto
+import Driver.PyGenCmp
 namespace Driver.C13
 open GambitV Driver
 
@@ -28,7 +29,10 @@ def handle : List String → Option String
       then natListsOf (rs.filterMap fun r => match r with | .ok l => some l | .error _ => none) else "err"
     let r := expect spec real
     if r != "ok" then pure r else
-    pure (if out == spec then "ok" else s!"FAIL model/spec disagree model={out}")
+    if out != spec then pure s!"FAIL model/spec disagree model={out}" else
+    let oks := rs.map (fun r => match r with | .ok _ => true | .error _ => false)
+    let sg ← if sigma == "~" then pure none else (parseNats sigma).map some
+    pure ((PyGen.calcFiles oks sg (real == "err")).getD "ok")
   | _ => none
 
 end Driver.C13
